@@ -6744,7 +6744,9 @@ impl RelationalEngine {
                     ));
                 }
 
-                // Revert index changes (continue even if some fail)
+                // Revert index changes (continue even if some fail). Every removal comes before
+                // the first re-addition: removals only free ordered-index keys, so putting the
+                // old entries back cannot be refused by the key budget.
                 for change in index_changes {
                     if let Err(e) =
                         self.index_remove(table, &change.column, &change.new_value, *row_id)
@@ -6754,6 +6756,16 @@ impl RelationalEngine {
                             change.column
                         ));
                     }
+                    if let Err(e) =
+                        self.btree_index_remove(table, &change.column, &change.new_value, *row_id)
+                    {
+                        errors.push(format!(
+                            "Failed to remove btree index for {table}.{}: {e}",
+                            change.column
+                        ));
+                    }
+                }
+                for change in index_changes {
                     if !has_hash(&change.column) {
                         // no hash index on this column (any more): nothing to restore
                     } else if let Err(e) =
@@ -6761,14 +6773,6 @@ impl RelationalEngine {
                     {
                         errors.push(format!(
                             "Failed to add index entry for {table}.{}: {e}",
-                            change.column
-                        ));
-                    }
-                    if let Err(e) =
-                        self.btree_index_remove(table, &change.column, &change.new_value, *row_id)
-                    {
-                        errors.push(format!(
-                            "Failed to remove btree index for {table}.{}: {e}",
                             change.column
                         ));
                     }
